@@ -718,6 +718,59 @@ theorem orphan_dnskey_rrsig_panics :
     orphanDnskeyRrsig traceOrphan = true ∧ validate (mkEnv traceOrphan none) 27 0 qKr = .abort "panic" := by
   decide
 
+namespace Ex
+/-- F7: `alias.z. A` is answered with the (genuine, signed) A RRset of `www.z.`; the CNAME is gone -/
+def qAlias : Query := ⟨["alias", "z"], 1⟩
+def traceNoCname : List (Query × UpOut) :=
+  [(qAlias, msg [a, sigA]), (qKz, msg [kz, sigKz]), (qDs, msg [dsz, sigDs]), (qKr, msg [kr, sigKr])]
+
+/-- F8: `www.z. A` is answered NXDOMAIN with one authority record of the unsigned zone `u.` (NS RRset of the
+delegation; its DS lookup is a validated NSEC denial).  Record ids: u 20, nsecU 21, sigN 22. -/
+def u : Rec := { name := ["u"], rtype := 2, rid := 20 }
+def nsecU : Rec := { name := ["u"], rtype := 47, rid := 21 }
+def sigN : Rec := { name := ["u"], rtype := 46, rid := 22, covered := 47, signer := [], labels := 1 }
+def traceForeignInsecure : List (Query × UpOut) :=
+  [(qA, .ok { rcode := 3, an := [], ns := [u], ad := [] }),
+   (⟨["u"], 2⟩, msg [u]),
+   (⟨["u"], 43⟩, .ok { rcode := 0, an := [], ns := [nsecU, sigN], ad := [] }),
+   (qKr, msg [kr, sigKr])]
+def envForeignInsecure : Env :=
+  { mkEnv traceForeignInsecure none with
+    sigRes := fun k s g =>
+      if (k, s) = (6, 7) && g.rtype == 48 && g.name == [] then .secure
+      else if (k, s) = (6, 22) && g.rtype == 47 then .secure
+      else .err
+    nsec := fun qid mask _ => if qid == 2 && mask == 1 then .secure else .bogus }
+end Ex
+
+open Ex in
+/-- **Replay of finding `C07.AnswerSectionWithoutAnswerAccepted`** (kernel-checked): the answer section holds
+genuine Secure records of another name and nothing for the query name; the validator returns `Ok`, the server
+forwards NOERROR with AD. -/
+theorem answer_section_without_answer_accepted :
+    validate (mkEnv traceNoCname) 27 0 qAlias = .ok { rcode := 0, an := [sec' a, sec' sigA], ns := [], ad := [] } ∧
+    answerSectionWithoutAnswer qAlias { rcode := 0, an := [sec' a, sec' sigA], ns := [], ad := [] } = true ∧
+    serverView false qAlias (validate (mkEnv traceNoCname) 27 0 qAlias) = (0, true) := by
+  decide
+
+open Ex in
+/-- **Replay of finding `C07.InsecureAuthorityAcceptsDenial`** (kernel-checked): an NXDOMAIN for the signed name
+`www.z.` that carries nothing but a record of the unrelated unsigned zone `u.` is accepted (`Ok`, the record
+rightly Insecure) and forwarded as NXDOMAIN, not SERVFAIL. -/
+theorem insecure_authority_accepts_denial :
+    validate envForeignInsecure 27 0 qA = .ok { rcode := 3, an := [], ns := [ins' u], ad := [] } ∧
+    insecureAuthorityDenial { rcode := 3, an := [], ns := [ins' u], ad := [] } = true ∧
+    serverView false qA (validate envForeignInsecure 27 0 qA) = (3, false) := by
+  decide
+
+/-- **Replay of finding `C07.SoaAnswerWithoutSoaNotServfail`** (kernel-checked): a SOA query answered with the
+orphaned, Bogus RRSIG of the SOA alone reaches the server as "no records" and is forwarded NOERROR. -/
+theorem soa_answer_without_soa_not_servfail :
+    let sigSoa : Rec := { name := ["z"], rtype := 46, rid := 3, covered := 6, signer := ["z"], labels := 1, proof := .bogus }
+    let m : Msg := { rcode := 0, an := [sigSoa], ns := [], ad := [] }
+    soaAnswerWithoutSoa ⟨["z"], 6⟩ m = true ∧ serverView false ⟨["z"], 6⟩ (.ok m) = (0, false) := by
+  decide
+
 /-- the strict reading needs a signature in the section -/
 theorem keySigned_needs_sig {env : Env} {q : Query} {sec : Nat} {k : Rec} (h : KeySigned env q sec k) :
     env.anchor k.rid = true ∨ ∃ qid m, upMsg env q = some (qid, m) ∧ ∃ s ∈ m.sec sec, s.isSig = true := by
